@@ -96,6 +96,10 @@ class LB:
             return 1 if self.lb(e["args"][0]) >= 1 and self.lb(e["args"][1]) >= 1 else 0
         if k == "mcall" and e["name"] == "div_ceil" and len(e["args"]) == 1:
             return 1 if self.lb(e["recv"]) >= 1 and self.lb(e["args"][0]) >= 1 else 0
+        if k == "call" and is_path(e["f"]) and e["f"]["p"] in ("std::cmp::max", "cmp::max", "core::cmp::max", "usize::max") and len(e["args"]) == 2:
+            return max(self.lb(e["args"][0]), self.lb(e["args"][1]))
+        if k == "call" and is_path(e["f"]) and e["f"]["p"] in ("std::cmp::min", "cmp::min", "core::cmp::min", "usize::min") and len(e["args"]) == 2:
+            return min(self.lb(e["args"][0]), self.lb(e["args"][1]))
         if k == "mcall" and e["name"] == "max" and len(e["args"]) == 1:
             return max(self.lb(e["recv"]), self.lb(e["args"][0]))
         if k == "mcall" and e["name"] == "min" and len(e["args"]) == 1:
